@@ -326,7 +326,25 @@ def sig_sentinel_stat(c, f):
     return extreme and stored_matches(f["stored"], emulate_stats(c, se, col), col["t"])
 
 
-FILE_SIGS = [("C07-bool-preagg-time-index", sig_bool_stat,
+def sig_zero_flag_stat(c, f):
+    """C07-preagg-vlc-zero-flag at file level: file written under chunk-meta-compress-mode self (3); the statistics of a
+    float column whose min and max are zero as float64 are stored as min = max = sum = +0.0 with the times and the count
+    today's builder computes, and that differs from the rows only in the sign of a zero (or the sum)."""
+    if f.get("col") != "stats:float" or c.get("cmode", 0) != 3:
+        return False
+    se, col = stat_col(c, f)
+    if col is None:
+        return False
+    emu = emulate_stats(c, se, col)
+    if emu[4] == 1 or emu[0] % M63 != 0 or emu[2] % M63 != 0:
+        return False
+    want = [0, emu[1], 0, emu[3], emu[4], 0]
+    return f["stored"] == want and emu != want
+
+
+FILE_SIGS = [("C07-preagg-vlc-zero-flag", sig_zero_flag_stat,
+              "float statistics with min == max == 0 stored under chunk-meta-compress-mode self lose the sign of -0.0 and the sum (flag byte 0)"),
+             ("C07-bool-preagg-time-index", sig_bool_stat,
               "stored min/max times of a boolean column with nulls are taken at the wrong rows"),
              ("C07-preagg-sentinel-init", sig_sentinel_stat,
               "stored statistics miss an extreme value equal to the builders' start value (MaxInt64/MinInt64, +-Inf)")]
@@ -583,7 +601,12 @@ def main(ck):
     # merged file wins for ids it knows)
     frag = os.path.join(ck.verif, "props", PID, "findings.json")
     have = {f["id"] for f in ck.findings}
-    ck.findings += [f for f in json.load(open(frag))["findings"] if f["property"] == PID and f["id"] not in have]
+    mine = [f for f in json.load(open(frag))["findings"] if f["property"] == PID]
+    ck.findings += [f for f in mine if f["id"] not in have]
+    # the stricter status wins: a finding this fragment records as fixed suppresses nothing even while the merged file
+    # still lists it as open
+    fixed_here = {f["id"] for f in mine if f.get("status") == "fixed"}
+    ck.findings = [dict(f, status="fixed") if f["id"] in fixed_here else f for f in ck.findings]
     binp = ck.go_build("./cmd/c07", "c07")
     if not binp:
         return
